@@ -355,6 +355,10 @@ impl<Payload: for<'de> Deserialize<'de>> JWT<Payload> {
 
         let signature_part = parts.next()
             .ok_or_else(Response::Unauthorized)?;
+        /* a JWS compact serialization has exactly three parts */
+        if parts.next().is_some() {
+            return Err(Response::Unauthorized().with_text(UNAUTHORIZED_MESSAGE))
+        }
         let requested_signature = crate::util::base64_url_decode(signature_part)
             .map_err(|_| Response::Unauthorized())?;
 
